@@ -98,7 +98,7 @@ def syntax_errors(out, mc, pending):
     kinds = None
     p = srcinfo.find_def("/repo/crates/emmylua_parser/src", "enum", "LuaParseErrorKind")
     kinds = srcinfo.enum_variants(p, "LuaParseErrorKind") if p else ["SyntaxError", "DocError"]
-    ex = symex.Executor(fns, enums={"DiagnosticCode": codes, "LuaParseErrorKind": kinds}, max_visits=3, max_paths=30000)
+    ex = symex.Executor(fns, enums={"DiagnosticCode": codes, "LuaParseErrorKind": kinds}, max_visits=symex.visits(3), max_paths=30000)
     # the second loop (token walk) is cut short: the iterator over descendants yields nothing
     def m_desc_next(ex_, st, cname, args, dest_ty, fn_):
         return Agg("Option", "None", [])
